@@ -60,7 +60,7 @@ def build(cfg):
     S = Sites()
     t0, tf = cfg["span"]
     d = 1.0 if tf > t0 else -1.0
-    dtype = np.float64
+    dtype = lc.DT[cfg.get("dtype", "float64")]
 
     def rhs(t, y, **kw):
         S.hit("rhs")
@@ -229,7 +229,7 @@ def fault_case(case):
             except BaseException:       # noqa
                 pass
             S2.disarm()
-            dt0_abs = abs(float(cfg["dt0"]))
+            dt0_abs = abs(float(dtype(cfg["dt0"])))
             a2.reset()
             if (len(a2) != 1 or a2.t[0] != ref_t[0] or not np.array_equal(a2.y[0], y0) or len(a2.events) != 0 or a2.nfev != 0
                     or (a2.sol is not None and len(a2.sol.y_interpolants) != 0) or a2.integration_status != "Integration has not been run."
@@ -343,6 +343,9 @@ def configs(ctx):
                     out.append(dict(method=m, span=span, dt0=(0.2 if long_running else dt0), tol=tol, jac=jac, dense=dense, evcb=evcb))
                     if m in ("RK4Solver", "RK45CKSolver") and dense and evcb:
                         out.append(dict(method=m, span=span, dt0=dt0, tol=tol, jac=jac, dense=dense, evcb=evcb, against=True))
+    # single precision
+    out.append(dict(method="RK45CKSolver", span=[0.0, 2.0], dt0=3.0, tol=1e-4, jac=None, dense=True, evcb=True, dtype="float32"))
+    out.append(dict(method="RK4Solver", span=[1.0, -1.0], dt0=0.7, tol=1e-4, jac=None, dense=True, evcb=True, dtype="float32"))
     # the same far from the origin of the time axis (rounding of t exceeds any absolute tolerance of a few eps)
     for (m, dt0, tol) in (("RK4Solver", 0.7, 1e-6), ("RK45CKSolver", 3.0, 1e-4)):
         for span in ([1000.0, 1002.0], [-1000.0, -1002.0]):
